@@ -18,6 +18,18 @@
 // the fate of the metric (dropped by the blacklist, consumed by a drop-raw
 // aggregator, handed to the routes) is read off the table's own Tracef lines
 // and cross-checked against the table's blacklist counter.
+//
+// Kind "ovl" (overlapping admin operations on one real route): the relay
+// goroutine of every destination of the route is parked at the top of its loop
+// (destination.VerifSetHook, point "relay.loop") from its birth on.  Operation
+// ov1 of the schedule, a DelDestination, is started in a goroutine of its own:
+// it takes the route lock, loads the configuration and waits inside
+// Destination.Shutdown for the parked relay.  Operation ov2 is started in a
+// second goroutine while ov1 is parked there; when ov2 waits for the route lock
+// (or has returned) the relays are released.  Every wait is for an observable
+// state (hook event, goroutine state in runtime.Stack) with a deadline; a gate
+// that cannot be established fails the driver (exit 2 of the check).  Recorded:
+// call / return of each operation and the route as Table.Snapshot() shows it.
 package tbl
 
 import (
@@ -27,6 +39,7 @@ import (
 	"math/rand"
 	"os"
 	"reflect"
+	"runtime"
 	"strconv"
 	"strings"
 	"sync"
@@ -119,6 +132,91 @@ type harness struct {
 	feArmed *dispState // kind fe: the dispatcher that is to be held at the front-end gate
 	blBase  int64      // the table's blacklist counter when the history started (process-global counter)
 	blSeen  int64      // dispatches the hook saw dropped by the blacklist
+
+	parkAll bool   // kind ovl: relays of new destinations are parked at birth
+	okDels  int    // kind ovl: deletes of a destination that returned without error (each shut one relay down)
+	evKind  string // kind as recorded in the hist event (ovl runs on the harness of kind dest)
+}
+
+// ---- parking of relay goroutines (destination verif hook, point "relay.loop")
+
+type parkState struct {
+	parked   chan struct{} // closed when the relay has arrived at the gate
+	release  chan struct{} // closed to let it go (and to disarm the gate)
+	once     sync.Once
+	released bool
+}
+
+var parkMu sync.Mutex
+var parkReg = map[string]*parkState{}
+var parkArmed int32
+var relayWatch int32              // kind ovl running: relays that take the shutdown signal are noted
+var relayGone = map[string]bool{} // destination key -> its relay has taken the shutdown signal and returns
+
+func destHook(name string, args ...interface{}) {
+	if name == "relay.shutdown" && atomic.LoadInt32(&relayWatch) != 0 && len(args) > 0 {
+		if key, ok := args[0].(string); ok {
+			parkMu.Lock()
+			relayGone[key] = true
+			parkMu.Unlock()
+		}
+		return
+	}
+	if name != "relay.loop" || atomic.LoadInt32(&parkArmed) == 0 || len(args) == 0 {
+		return
+	}
+	key, ok := args[0].(string)
+	if !ok {
+		return
+	}
+	parkMu.Lock()
+	p := parkReg[key]
+	parkMu.Unlock()
+	if p == nil {
+		return
+	}
+	p.once.Do(func() { close(p.parked) })
+	<-p.release
+}
+
+func parkArm(key string) {
+	parkMu.Lock()
+	if parkReg[key] == nil {
+		parkReg[key] = &parkState{parked: make(chan struct{}), release: make(chan struct{})}
+		atomic.AddInt32(&parkArmed, 1)
+	}
+	parkMu.Unlock()
+}
+
+func parkGet(key string) *parkState {
+	parkMu.Lock()
+	defer parkMu.Unlock()
+	return parkReg[key]
+}
+
+func parkRelease(key string) {
+	parkMu.Lock()
+	p := parkReg[key]
+	if p != nil && !p.released {
+		p.released = true
+		close(p.release)
+	}
+	parkMu.Unlock()
+}
+
+// release every relay and stop parking new ones
+func (h *harness) parkReleaseAll() {
+	h.parkAll = false
+	parkMu.Lock()
+	for k, p := range parkReg {
+		if !p.released {
+			p.released = true
+			close(p.release)
+		}
+		delete(parkReg, k)
+		atomic.AddInt32(&parkArmed, -1)
+	}
+	parkMu.Unlock()
 }
 
 const gateAggID = 99
@@ -333,6 +431,7 @@ func installHook() {
 		l.SetOutput(ioutil.Discard)
 		l.AddHook(lrHook{})
 		l.SetLevel(log.TraceLevel)
+		destination.VerifSetHook(destHook) // once, before any destination runs; inert unless a key is armed
 		aggregator.InitMetrics() // as the relay's main does: aggregators that take a metric sample its timestamp
 	})
 }
@@ -341,7 +440,11 @@ func installHook() {
 
 func newHarness(t *testing.T, lg *hx.Log, kind string, rng *rand.Rand) *harness {
 	n := atomic.AddInt64(&scnCounter, 1)
-	h := &harness{t: t, lg: lg, kind: kind, tag: fmt.Sprintf("%sx%d", runTag, n),
+	evKind := kind
+	if kind == "ovl" { // one real route and its destinations, as kind dest; the relays under control of the gate
+		kind = "dest"
+	}
+	h := &harness{t: t, lg: lg, kind: kind, evKind: evKind, parkAll: evKind == "ovl", tag: fmt.Sprintf("%sx%d", runTag, n),
 		disp: map[int]*dispState{}, destID: map[string]int{}, dests: map[int]*destination.Destination{},
 		sends: map[int]int{}, drains: map[int]*int64{}, stopDr: make(chan struct{}),
 		aggID: map[*aggregator.Aggregator]int{}, held: map[string][]heldSnap{}}
@@ -353,6 +456,12 @@ func newHarness(t *testing.T, lg *hx.Log, kind string, rng *rand.Rand) *harness 
 	}
 	h.tbl = table.New(cfg)
 	h.blBase = blCounter().Count()
+	if evKind == "ovl" {
+		parkMu.Lock()
+		relayGone = map[string]bool{}
+		parkMu.Unlock()
+		atomic.StoreInt32(&relayWatch, 1)
+	}
 	cur.Store(h)
 	if kind == "dest" {
 		h.rkey = "R" + h.tag
@@ -377,6 +486,9 @@ func (h *harness) newDest(routeKey string, id, f int) *destination.Destination {
 	d, err := destination.New(routeKey, m, addr, "/dev/shm/verif-c18-nospool", false, false, time.Second, time.Hour, 100, 4096, 100, 1000, 100, time.Second, time.Second, time.Second)
 	if err != nil {
 		h.t.Fatal(err)
+	}
+	if h.parkAll {
+		parkArm(d.Key) // it does not run yet: its relay will park at the first turn of its loop
 	}
 	h.regDest(d, id)
 	return d
@@ -583,6 +695,13 @@ func (h *harness) view(list string) [][2]int {
 			out = append(out, [2]int{aggIDOf(a), aggFOf(a)})
 		}
 		return out
+	case "rt":
+		for _, r := range s.Routes {
+			if r.Key == h.rkey {
+				out = append(out, [2]int{0, fOfPrefix(r.Matcher.Prefix)})
+			}
+		}
+		return out
 	}
 	if h.kind == "dest" {
 		for _, r := range s.Routes {
@@ -664,8 +783,33 @@ func (h *harness) doOp(list string, o step) {
 	if h.kind == "dest" || h.kind == "rroute" {
 		liveBefore = h.liveDests()
 	}
-	var err error
-	via := "api"
+	if h.evKind == "ovl" && list == "main" && o.Op == "delidx" {
+		// a sequential delete: the relay of the destination it shuts down must run
+		if ds := route.VerifRawDests(h.rt); o.I >= 0 && o.I < len(ds) {
+			parkRelease(ds[o.I].Key)
+		}
+	}
+	err, via := h.apply(list, o, h.useCmd)
+	if h.evKind == "ovl" && list == "main" && o.Op == "delidx" && err == nil {
+		h.okDels++
+	}
+	if liveBefore != nil {
+		h.drainRemoved(liveBefore)
+	}
+	// white box: every slice published so far (this operation's included), read now
+	snaps := h.capture()
+	errs := ""
+	if err != nil {
+		errs = err.Error()
+	}
+	h.lg.Emit(map[string]interface{}{"ev": "opdone", "err": err != nil, "errs": errs, "via": via, "view": h.view(list),
+		"snaps": snaps})
+}
+
+// apply calls the real code for one admin operation (useCmd: through a command line of the admin interface
+// where there is one, or the Go API)
+func (h *harness) apply(list string, o step, useCmd func() bool) (err error, via string) {
+	via = "api"
 	cmd := func(s string) {
 		via = "cmd"
 		err = imperatives.Apply(h.tbl, s)
@@ -675,10 +819,18 @@ func (h *harness) doOp(list string, o step) {
 		fpre = fmt.Sprintf("c%d.", o.F)
 	}
 	switch list {
+	case "rt": // the filter of the one real route (kind dest / ovl)
+		if o.Op == "updidx" {
+			if useCmd() {
+				cmd(fmt.Sprintf("modRoute %s prefix=%s", h.rkey, fpre))
+			} else {
+				err = h.tbl.UpdateRoute(h.rkey, map[string]string{"prefix": fpre})
+			}
+		}
 	case "rw":
 		switch o.Op {
 		case "add":
-			if h.useCmd() {
+			if useCmd() {
 				cmd(fmt.Sprintf("addRewriter _ %d-_ 1", o.E))
 			} else {
 				var rw rewriter.RW
@@ -695,7 +847,7 @@ func (h *harness) doOp(list string, o step) {
 		case "add":
 			if o.F != 0 { // an entry that drops every class-F metric
 				re := fmt.Sprintf("^(c%d|bl%d)[.]", o.F, o.E)
-				if h.useCmd() {
+				if useCmd() {
 					cmd("addBlack regex " + re)
 				} else {
 					var m matcher.Matcher
@@ -704,7 +856,7 @@ func (h *harness) doOp(list string, o step) {
 						h.tbl.AddBlacklist(&m)
 					}
 				}
-			} else if h.useCmd() {
+			} else if useCmd() {
 				cmd(fmt.Sprintf("addBlack prefix bl%d.", o.E))
 			} else {
 				var m matcher.Matcher
@@ -732,7 +884,7 @@ func (h *harness) doOp(list string, o step) {
 					}
 				}
 			} else if o.F != 0 { // a drop-raw aggregator that consumes every class-F metric
-				if h.useCmd() {
+				if useCmd() {
 					cmd(fmt.Sprintf("addAgg sum ^c%d[.] agg%d.out 3600 7200 dropRaw=true", o.F, o.E))
 				} else {
 					var m matcher.Matcher
@@ -745,7 +897,7 @@ func (h *harness) doOp(list string, o step) {
 						}
 					}
 				}
-			} else if h.useCmd() {
+			} else if useCmd() {
 				cmd(fmt.Sprintf("addAgg sum ^agg%d[.]never agg%d.out 3600 7200", o.E, o.E))
 			} else {
 				var m matcher.Matcher
@@ -768,7 +920,7 @@ func (h *harness) doOp(list string, o step) {
 			case "add":
 				h.tbl.AddRoute(&capRoute{h: h, id: o.E, f: o.F, key: h.routeKey(o.E)})
 			case "delkey":
-				if h.useCmd() {
+				if useCmd() {
 					cmd("delRoute " + h.routeKey(o.K))
 				} else {
 					err = h.tbl.DelRoute(h.routeKey(o.K))
@@ -778,7 +930,7 @@ func (h *harness) doOp(list string, o step) {
 			switch o.Op {
 			case "add":
 				key := h.routeKey(o.E)
-				if h.useCmd() {
+				if useCmd() {
 					addr := fmt.Sprintf("127.0.0.1:%d", 1+o.E)
 					h.mu.Lock()
 					h.destID[util.Key(key, addr)] = o.E // registered before the route is published
@@ -806,13 +958,13 @@ func (h *harness) doOp(list string, o step) {
 					}
 				}
 			case "delkey":
-				if h.useCmd() {
+				if useCmd() {
 					cmd("delRoute " + h.routeKey(o.K))
 				} else {
 					err = h.tbl.DelRoute(h.routeKey(o.K))
 				}
 			case "updkey":
-				if h.useCmd() {
+				if useCmd() {
 					cmd(fmt.Sprintf("modRoute %s prefix=%s", h.routeKey(o.K), fpre))
 				} else {
 					err = h.tbl.UpdateRoute(h.routeKey(o.K), map[string]string{"prefix": fpre})
@@ -826,7 +978,7 @@ func (h *harness) doOp(list string, o step) {
 			case "delidx":
 				err = h.tbl.DelDestination(h.rkey, o.I)
 			case "updidx":
-				if h.useCmd() {
+				if useCmd() {
 					cmd(fmt.Sprintf("modDest %s %d prefix=%s", h.rkey, o.I, fpre))
 				} else {
 					err = h.tbl.UpdateDestination(h.rkey, o.I, map[string]string{"prefix": fpre})
@@ -834,17 +986,191 @@ func (h *harness) doOp(list string, o step) {
 			}
 		}
 	}
-	if liveBefore != nil {
-		h.drainRemoved(liveBefore)
+	return
+}
+
+// ---- overlapping admin operations (kind ovl)
+
+// goroutines returns the stack dump of all goroutines, one block per goroutine
+func goroutines() []string {
+	buf := make([]byte, 1<<20)
+	for {
+		n := runtime.Stack(buf, true)
+		if n < len(buf) {
+			return strings.Split(string(buf[:n]), "\n\n")
+		}
+		buf = make([]byte, 2*len(buf))
 	}
-	// white box: every slice published so far (this operation's included), read now
+}
+
+// gstate finds the goroutine that runs the marker function: its wait state ("chan send", "sync.Mutex.Lock", ...;
+// "running" / "runnable" when it is not parked) and the functions on its stack, innermost first
+func gstate(marker string) (state string, funcs []string, found bool) {
+	for _, g := range goroutines() {
+		if !strings.Contains(g, marker) {
+			continue
+		}
+		lines := strings.Split(g, "\n")
+		hdr := lines[0]
+		if i, j := strings.IndexByte(hdr, '['), strings.IndexByte(hdr, ']'); i >= 0 && j > i {
+			state = strings.TrimSpace(strings.Split(hdr[i+1:j], ",")[0])
+		}
+		for _, l := range lines[1:] {
+			if l != "" && l[0] != '\t' {
+				funcs = append(funcs, l)
+			}
+		}
+		return state, funcs, true
+	}
+	return "", nil, false
+}
+
+func hasFunc(funcs []string, sub string) bool {
+	for _, f := range funcs {
+		if strings.Contains(f, sub) {
+			return true
+		}
+	}
+	return false
+}
+
+// inside Destination.Shutdown, waiting for the relay to take the shutdown signal
+func parkedInShutdown(state string, funcs []string) bool {
+	return state == "chan send" && hasFunc(funcs, "destination.(*Destination).Shutdown")
+}
+
+// waiting for a mutex that an admin function of the route / table package asked for
+func parkedOnAdminLock(state string, funcs []string) bool {
+	if state != "sync.Mutex.Lock" && state != "semacquire" {
+		return false
+	}
+	for i, f := range funcs {
+		if strings.HasPrefix(f, "sync.(*Mutex).Lock") && i+1 < len(funcs) {
+			nx := funcs[i+1]
+			return strings.Contains(nx, "carbon-relay-ng/route.") || strings.Contains(nx, "carbon-relay-ng/table.")
+		}
+	}
+	return false
+}
+
+//go:noinline
+func ovlFirstOp(f func() error, out chan<- error) { out <- f() }
+
+//go:noinline
+func ovlSecondOp(f func() error, out chan<- error) { out <- f() }
+
+const gateDeadline = 60 * time.Second
+
+func (h *harness) gateFail(what string) {
+	h.parkReleaseAll()
+	h.lg.Emit(map[string]interface{}{"ev": "gatefail", "what": what})
+	h.t.Fatalf("kind ovl: gate not established: %s", what)
+}
+
+// overlap: o1 (a DelDestination of an existing destination) is parked inside Shutdown, where it holds the route
+// lock; o2 is started; when o2 waits for the route lock (or has returned) the relays are released.
+func (h *harness) overlap(o1, o2 step) {
+	rec := func(a int, o step) {
+		h.lg.Emit(map[string]interface{}{"ev": "acall", "a": a, "l": o.L, "op": o.Op, "e": o.E, "f": o.F, "i": o.I, "k": o.K})
+	}
+	ds := route.VerifRawDests(h.rt)
+	if o1.L != "main" || o1.Op != "delidx" || o1.I < 0 || o1.I >= len(ds) {
+		h.gateFail(fmt.Sprintf("ov1 must delete an existing destination: %+v with %d destinations", o1, len(ds)))
+	}
+	victim := parkGet(ds[o1.I].Key)
+	if victim == nil {
+		h.gateFail("the destination to be deleted is not under control of the relay gate")
+	}
+	select {
+	case <-victim.parked:
+	case <-time.After(gateDeadline):
+		h.gateFail("the relay of the destination to be deleted never came to the gate (hook point relay.loop gone?)")
+	}
+	liveBefore := h.liveDests()
+	use1, use2 := h.useCmd(), h.useCmd() // drawn here: the generator is not shared between the goroutines
+	via := [3]string{}
+	res1, res2 := make(chan error, 1), make(chan error, 1)
+
+	rec(1, o1)
+	go ovlFirstOp(func() error {
+		err, v := h.apply(o1.L, o1, func() bool { return use1 })
+		via[1] = v
+		return err
+	}, res1)
+	deadline := time.Now().Add(gateDeadline)
+	for {
+		st, fn, ok := gstate("tbl.ovlFirstOp")
+		if ok && parkedInShutdown(st, fn) {
+			break
+		}
+		if len(res1) > 0 {
+			h.gateFail("ov1 returned although the relay of the destination it shuts down is parked")
+		}
+		if time.Now().After(deadline) {
+			h.gateFail(fmt.Sprintf("ov1 never got into Destination.Shutdown (state %q)", st))
+		}
+		time.Sleep(100 * time.Microsecond)
+	}
+	// does it hold the route lock there?  (recorded, not judged)
+	locked := true
+	if mu, ok := h.rt.(interface {
+		TryLock() bool
+		Unlock()
+	}); ok && mu.TryLock() {
+		mu.Unlock()
+		locked = false
+	}
+
+	rec(2, o2)
+	go ovlSecondOp(func() error {
+		err, v := h.apply(o2.L, o2, func() bool { return use2 })
+		via[2] = v
+		return err
+	}, res2)
+	g2 := ""
+	for g2 == "" {
+		st, fn, ok := gstate("tbl.ovlSecondOp")
+		switch {
+		case len(res2) > 0:
+			g2 = "returned"
+		case ok && parkedOnAdminLock(st, fn):
+			g2 = "lock"
+		case ok && parkedInShutdown(st, fn):
+			g2 = "shutdown"
+		case time.Now().After(deadline):
+			h.gateFail(fmt.Sprintf("ov2 neither returned nor came to wait for the route lock (state %q, stack %v)", st, fn))
+		default:
+			time.Sleep(100 * time.Microsecond)
+		}
+	}
+
+	// let ov1 finish; ov2 follows
+	h.parkReleaseAll()
+	for n := 0; n < 2; n++ {
+		var a int
+		var err error
+		select {
+		case err = <-res1:
+			a = 1
+		case err = <-res2:
+			a = 2
+		case <-time.After(gateDeadline):
+			h.lg.Emit(map[string]interface{}{"ev": "gatefail", "what": "an overlapped operation did not return"})
+			h.t.Fatalf("kind ovl: an overlapped operation did not return after the relays were released")
+		}
+		errs := ""
+		if err != nil {
+			errs = err.Error()
+		}
+		h.lg.Emit(map[string]interface{}{"ev": "aret", "a": a, "err": err != nil, "errs": errs, "via": via[a]})
+		if o := [3]step{{}, o1, o2}[a]; o.L == "main" && o.Op == "delidx" && err == nil {
+			h.okDels++
+		}
+	}
+	h.drainRemoved(liveBefore)
 	snaps := h.capture()
-	errs := ""
-	if err != nil {
-		errs = err.Error()
-	}
-	h.lg.Emit(map[string]interface{}{"ev": "opdone", "err": err != nil, "errs": errs, "via": via, "view": h.view(list),
-		"snaps": snaps})
+	h.lg.Emit(map[string]interface{}{"ev": "aview", "view": h.view("main"), "rtview": h.view("rt"), "snaps": snaps,
+		"g1": "shutdown", "locked": locked, "g2": g2})
 }
 
 func (h *harness) routesRaw() []route.Route {
@@ -919,6 +1245,50 @@ func (h *harness) end(d int) {
 // close: shut the table down, cross-check the log-hook observation with the
 // destinations' own counters (independent channel), stop the drains
 func (h *harness) close() {
+	if h.evKind == "ovl" {
+		h.parkReleaseAll()
+		// Table.Shutdown shuts every LISTED destination down and would wait for ever for one whose relay has
+		// returned already (a deleted destination that is listed again).  The relays that took the shutdown
+		// signal are known from the hook: one per successful delete.
+		gone := func() map[string]bool {
+			parkMu.Lock()
+			defer parkMu.Unlock()
+			m := map[string]bool{}
+			for k := range relayGone {
+				m[k] = true
+			}
+			return m
+		}
+		g := gone()
+		for dl := time.Now().Add(10 * time.Second); len(g) < h.okDels && time.Now().Before(dl); g = gone() {
+			time.Sleep(100 * time.Microsecond)
+		}
+		listedDead := false
+		for d := range h.liveDests() {
+			if g[d.Key] {
+				listedDead = true
+			}
+		}
+		atomic.StoreInt32(&relayWatch, 0)
+		if listedDead {
+			h.lg.Emit(map[string]interface{}{"ev": "note", "what": "a destination whose relay has shut down is listed by the route; destinations shut down one by one"})
+			h.mu.Lock()
+			var ds []*destination.Destination
+			for _, d := range h.dests {
+				ds = append(ds, d)
+			}
+			h.mu.Unlock()
+			for _, d := range ds {
+				if !g[d.Key] && d.In != nil {
+					d.Shutdown()
+				}
+			}
+			close(h.stopDr)
+			close(h.tbl.In)
+			cur.Store((*harness)(nil))
+			return
+		}
+	}
 	if h.kind == "dest" || h.kind == "rroute" {
 		deadline := time.Now().Add(20 * time.Second)
 		h.mu.Lock()
@@ -987,10 +1357,15 @@ func runScenario(t *testing.T, lg *hx.Log, sc scenario, rng *rand.Rand) {
 	for i := 1; i <= sc.Init; i++ {
 		h.doOp(list, step{Ev: "op", Op: "add", E: i})
 	}
+	var ov1 step
 	for _, st := range sc.Steps {
 		switch st.Ev {
+		case "ov1":
+			ov1 = st
+		case "ov2":
+			h.overlap(ov1, st)
 		case "op":
-			if sc.Kind == "fe" && st.L != "" {
+			if (sc.Kind == "fe" || sc.Kind == "ovl") && st.L != "" {
 				h.doOp(st.L, st)
 				break
 			}
